@@ -17,7 +17,7 @@ INFO = {
     "outside": ["Textual widgets and screens (replaced by a stand-in that calls the real handler methods)", "typed texts outside the candidate lists", "longer sequences"],
     "stubs": ["stand-in for MenuConfigApp's self (vk/ui.py): dialogs answered immediately, refresh / notify are no-ops", "memfs"],
 }
-BUDGET = {"quick": 240, "thorough": 1100}
+BUDGET = {"quick": 240, "thorough": 800}
 
 TEXTS = {
     K.INT: ["5", "0", "9", "77", "-3", "abc", "", " 7", "007", "+5"],
